@@ -22,76 +22,76 @@ MAP_ASSUME = ("Oracle: Wing-Gong linearizability against a sequential map whose 
 
 PROPS = {
     "C01": {
-        "harnesses": [{"name": "smr", "variants": [0, 1], "quick": 480000, "thorough": 6000000, "fuzz_runs": 600000}],
+        "harnesses": [{"name": "smr", "variants": [0, 1], "quick": 960000, "thorough": 6000000, "fuzz_runs": 600000}],
         "assumptions": [SC, SMR_ASSUME],
     },
     "C02": {
-        "harnesses": [{"name": "smr", "variants": [2], "quick": 320000, "thorough": 4000000, "fuzz_runs": 400000}],
+        "harnesses": [{"name": "smr", "variants": [2], "quick": 640000, "thorough": 4000000, "fuzz_runs": 400000}],
         "assumptions": [SC, SMR_ASSUME],
     },
     "C03": {
-        "harnesses": [{"name": "smr", "variants": [0, 1, 2], "quick": 480000, "thorough": 6000000, "fuzz_runs": 600000}],
+        "harnesses": [{"name": "smr", "variants": [0, 1, 2], "quick": 960000, "thorough": 6000000, "fuzz_runs": 600000}],
         "assumptions": [SC, SMR_ASSUME],
     },
     "C04": {
-        "harnesses": [{"name": "rcu", "variants": [0, 1, 3], "quick": 300000, "thorough": 4000000, "fuzz_runs": 400000, "weight": 3},
+        "harnesses": [{"name": "rcu", "variants": [0, 1, 3], "quick": 600000, "thorough": 4000000, "fuzz_runs": 400000, "weight": 3},
                       # general_threaded starts a real reclamation thread per case: much slower
-                      {"name": "rcu", "variants": [2], "quick": 24000, "thorough": 400000, "fuzz_runs": 40000, "weight": 1}],
+                      {"name": "rcu", "variants": [2], "quick": 48000, "thorough": 400000, "fuzz_runs": 40000, "weight": 1}],
         "assumptions": [SC, RCU_ASSUME],
     },
     "C05": {
-        "harnesses": [{"name": "rcu", "variants": [0, 1, 3], "quick": 300000, "thorough": 4000000, "fuzz_runs": 400000, "weight": 3},
+        "harnesses": [{"name": "rcu", "variants": [0, 1, 3], "quick": 600000, "thorough": 4000000, "fuzz_runs": 400000, "weight": 3},
                       # general_threaded starts a real reclamation thread per case: much slower
-                      {"name": "rcu", "variants": [2], "quick": 24000, "thorough": 400000, "fuzz_runs": 40000, "weight": 1}],
+                      {"name": "rcu", "variants": [2], "quick": 48000, "thorough": 400000, "fuzz_runs": 40000, "weight": 1}],
         "assumptions": [SC, RCU_ASSUME],
     },
     "C07": {
-        "harnesses": [{"name": "vyukov", "quick": 400000, "thorough": 4000000, "fuzz_runs": 400000}],
+        "harnesses": [{"name": "vyukov", "quick": 1000000, "thorough": 4000000, "fuzz_runs": 400000}],
         "assumptions": [SC, "Oracle: Wing-Gong linearizability against a bounded FIFO model (failed enqueue only on a full state, failed dequeue only on an empty one, front()/pop_front() of the single-consumer variant as front-read + dequeue), size()/empty() at quiescence, intrusive node canaries."],
     },
     "C08": {
-        "harnesses": [{"name": "segq", "quick": 400000, "thorough": 4000000, "fuzz_runs": 400000}],
+        "harnesses": [{"name": "segq", "quick": 800000, "thorough": 4000000, "fuzz_runs": 400000}],
         "assumptions": [SC, "Oracle: history invariants in their conservative reading (conservation, quasi-factor bound with q.quasi_factor(), emptiness rule), final drain/clear by main, per-node disposer accounting for the intrusive variants; deterministic permutation generators replace the random one through the documented trait."],
     },
     "C09": {
-        "harnesses": [{"name": "stack", "quick": 400000, "thorough": 4000000, "fuzz_runs": 400000,
+        "harnesses": [{"name": "stack", "quick": 800000, "thorough": 4000000, "fuzz_runs": 400000,
                        "extra": {"quick": [["elim2", 400, "1,2,4,7,13,15", "0,1"]], "thorough": [["elim2", 400, "all", "all"]]}, "weight": 3},
-                      {"name": "fc_containers", "variants": list(range(25, 36)), "quick": 8000, "thorough": 240000, "fuzz_runs": 40000, "weight": 1}],
+                      {"name": "fc_containers", "variants": list(range(25, 36)), "quick": 12000, "thorough": 240000, "fuzz_runs": 40000, "weight": 1}],
         "libs": BOOST,
         "assumptions": [SC, FC_ASSUME, "Oracle: Wing-Gong linearizability against a LIFO model incl. the final drain; item accounting; intrusive nodes disposed exactly once; the elimination random engine is replaced by a case-seeded one through the documented trait."],
     },
     "C10": {
-        "harnesses": [{"name": "fc_containers", "variants": list(range(36, 44)), "quick": 16000, "thorough": 400000, "fuzz_runs": 60000}],
+        "harnesses": [{"name": "fc_containers", "variants": list(range(36, 44)), "quick": 24000, "thorough": 400000, "fuzz_runs": 60000}],
         "libs": BOOST, "assumptions": [SC, FC_ASSUME],
     },
     "C11": {
-        "harnesses": [{"name": "mspq", "quick": 320000, "thorough": 3200000, "fuzz_runs": 400000, "weight": 3},
-                      {"name": "fc_containers", "variants": list(range(44, 49)), "quick": 8000, "thorough": 240000, "fuzz_runs": 40000, "weight": 1}],
+        "harnesses": [{"name": "mspq", "quick": 640000, "thorough": 3200000, "fuzz_runs": 400000, "weight": 3},
+                      {"name": "fc_containers", "variants": list(range(44, 49)), "quick": 12000, "thorough": 240000, "fuzz_runs": 40000, "weight": 1}],
         "libs": BOOST, "assumptions": [SC, FC_ASSUME, "MSPriorityQueue: conservation, conservative push-failure/empty-pop rules, drain order; linearizability against a bounded max-priority queue for every history in which no push overlaps a pop (phased programs and qualifying free ones)."],
     },
     "C12": {
-        "harnesses": [{"name": "ringbuf", "quick": 400000, "thorough": 4000000, "fuzz_runs": 400000}],
+        "harnesses": [{"name": "ringbuf", "quick": 800000, "thorough": 4000000, "fuzz_runs": 400000}],
         "assumptions": [SC, "Exactly one producer and one consumer thread. Oracle: exact sequence/size/bytes of every record, failure rules in their conservative reading against a byte-exact model of free space (incl. the unused tail of WeakRingBuffer<void>); record sizes stay inside the precondition the code asserts (calc_real_size(size) < capacity())."],
     },
     "C13": {
-        "harnesses": [{"name": "lists_hp", "quick": 240000, "thorough": 2400000, "fuzz_runs": 300000},
-                      {"name": "lists_rcu", "quick": 120000, "thorough": 1600000, "fuzz_runs": 200000}],
+        "harnesses": [{"name": "lists_hp", "quick": 408000, "thorough": 2400000, "fuzz_runs": 300000},
+                      {"name": "lists_rcu", "quick": 204000, "thorough": 1600000, "fuzz_runs": 200000}],
         "assumptions": [SC, MAP_ASSUME],
     },
     "C14": {
-        "harnesses": [{"name": "hashsets_a", "quick": 160000, "thorough": 1600000, "fuzz_runs": 200000},
-                      {"name": "hashsets_b", "quick": 160000, "thorough": 1600000, "fuzz_runs": 200000},
-                      {"name": "hashsets_c", "quick": 100000, "thorough": 1000000, "fuzz_runs": 120000}],
+        "harnesses": [{"name": "hashsets_a", "quick": 240000, "thorough": 1600000, "fuzz_runs": 200000},
+                      {"name": "hashsets_b", "quick": 240000, "thorough": 1600000, "fuzz_runs": 200000},
+                      {"name": "hashsets_c", "quick": 150000, "thorough": 1000000, "fuzz_runs": 120000}],
         "assumptions": [SC, MAP_ASSUME, "Hash families: identity, constant, low-bit-sharing, shared-prefix; split-list tables start at 2 buckets with load factor 1-2 so that they grow and initialise buckets recursively during the concurrent phase; Feldman head/array bits at their minimums (4/2)."],
     },
     "C15": {
-        "harnesses": [{"name": "skiplist", "quick": 120000, "thorough": 1200000, "fuzz_runs": 160000},
-                      {"name": "trees", "variants": list(range(0, 18)), "quick": 120000, "thorough": 1200000, "fuzz_runs": 160000}],
+        "harnesses": [{"name": "skiplist", "quick": 240000, "thorough": 1200000, "fuzz_runs": 160000},
+                      {"name": "trees", "variants": list(range(0, 18)), "quick": 240000, "thorough": 1200000, "fuzz_runs": 160000}],
         "assumptions": [SC, MAP_ASSUME, "extract_min/extract_max are judged by the statement's relaxed contract: 'erase k, k present' transitions plus a conservative counting side condition for 'a smaller (larger) key / any key was present throughout the call'. Skip-list tower heights are forced by a case-driven level generator. Variants 18-19 (Bronson relaxed_insert) are excluded, see known_findings.json; a Bronson extract_min/max livelock shows up as inconclusive cases (liveness is not judged)."],
     },
     "C16": {
-        "harnesses": [{"name": "lockhash", "quick": 160000, "thorough": 1600000, "fuzz_runs": 200000},
-                      {"name": "lockhash_boost", "quick": 160000, "thorough": 1600000, "fuzz_runs": 200000}],
+        "harnesses": [{"name": "lockhash", "quick": 320000, "thorough": 1600000, "fuzz_runs": 200000},
+                      {"name": "lockhash_boost", "quick": 320000, "thorough": 1600000, "fuzz_runs": 200000}],
         "assumptions": [SC, MAP_ASSUME, "std::mutex / std::recursive_mutex traffic is scheduled through the pthread interposers. Tiny tables: Cuckoo initial size 1-4 with probe-set size 2-4 and colliding injective hash tuples; Striped resizing policies single_bucket_size_threshold<0..2> and rational load factors (StripedSet clamps the initial capacity to 16, so resizes are forced by the policy and a shifted hash). A probe walks the bucket tables at quiescent points (no key twice, element in the bucket its hash selects, probe-set bounds, size() = linked elements)."],
     },
     "C17": {
@@ -103,16 +103,16 @@ PROPS = {
                         "The four Cuckoo variants with low-entropy tuples (rehash variants 9-12) are excluded from the generated campaign: they reproduce the open finding cuckoo-resize-drops-element within a few thousand cases; its reproducers are replayed and reported as KNOWN-FINDING."],
     },
     "C18": {
-        "harnesses": [{"name": "lists_hp", "quick": 120000, "thorough": 1200000, "fuzz_runs": 0},
-                      {"name": "hashsets_b", "quick": 80000, "thorough": 800000, "fuzz_runs": 0},
-                      {"name": "skiplist", "quick": 80000, "thorough": 800000, "fuzz_runs": 0},
-                      {"name": "trees", "variants": list(range(0, 18)), "quick": 80000, "thorough": 800000, "fuzz_runs": 0},
+        "harnesses": [{"name": "lists_hp", "quick": 204000, "thorough": 1200000, "fuzz_runs": 0},
+                      {"name": "hashsets_b", "quick": 120000, "thorough": 800000, "fuzz_runs": 0},
+                      {"name": "skiplist", "quick": 160000, "thorough": 800000, "fuzz_runs": 0},
+                      {"name": "trees", "variants": list(range(0, 18)), "quick": 160000, "thorough": 800000, "fuzz_runs": 0},
                       {"name": "seq_skiplist", "quick": 20000, "thorough": 200000, "fuzz_runs": 0},
                       {"name": "seq_trees", "variants": list(range(0, 18)), "quick": 20000, "thorough": 200000, "fuzz_runs": 0}],
         "assumptions": [SC, "Quiescent points: barriers inside the concurrent phase (all workers parked) and the end of every case, plus every 4th step of sequential histories. Oracle: traversal visits exactly the keys contains() finds, once, strictly increasing for ordered containers (split lists: strictly increasing split-order values, dummies even / regular odd, walked through a derived probe class); size()/empty() agree where a counter is configured; skip list: every level a strictly increasing sub-list of the level below without marked pointers; EllenBinTree check_consistency() + leaf-oriented BST walk; Bronson check_consistency() + BST/parent/version walk, and strict AVL shape (true heights, |hL-hR| <= 1, stored == true height) only while no removal has succeeded in the container (relaxed balance after removals is by design and the library's own check does not test balance)."],
     },
     "C19": {
-        "harnesses": [{"name": "iter", "variants": list(range(0, 15)), "quick": 200000, "thorough": 2000000, "fuzz_runs": 200000}],
+        "harnesses": [{"name": "iter", "variants": list(range(0, 15)), "quick": 600000, "thorough": 2000000, "fuzz_runs": 200000}],
         "assumptions": [SC, "Oracle: the element an iterator is positioned on keeps its canary/key/tag (really freed memory, ASan); completeness for keys present and untouched during the whole pass (exactly once + order for IterableList, exactly once for hash sets over it, at least once for Feldman); erase_at linearised as 'erase exactly this tag' in the updaters' history.",
                         "Variants 4-7 (iterators of MichaelHashSet/SplitListSet over IterableList, HP and DHP) stay in the campaign; their rare use-after-free crashes (about 1 in 15000 cases) are matched against the open known finding iterable-iterator-hazard-copy-race and reported as KNOWN-FINDING, any other failure of those variants is a violation."],
     },
@@ -131,21 +131,21 @@ PROPS = {
         "assumptions": ["Single thread, no scheduler. Oracle: step-wise differential against std::map / std::deque / std::multiset reference models (return values, observed tags, functor-call contract, update triple, size()/empty()/clear(), pop/extract order, full content compare every 4 steps, disposer count per intrusive item)."],
     },
     "C21": {
-        "harnesses": [{"name": "freelist", "quick": 480000, "thorough": 4800000, "fuzz_runs": 600000}],
+        "harnesses": [{"name": "freelist", "quick": 1440000, "thorough": 4800000, "fuzz_runs": 600000}],
         "assumptions": [SC, "Oracle: ownership map (list / holder) updated by the client, holder stamps re-checked at generated points, exact drain at quiescence; type-stable nodes; CachedFreeList slot selection made deterministic by overriding the hash of the calling thread's id."],
     },
     "C22": {
-        "harnesses": [{"name": "locks", "quick": 320000, "thorough": 3200000, "fuzz_runs": 400000,
+        "harnesses": [{"name": "locks", "quick": 960000, "thorough": 3200000, "fuzz_runs": 400000,
                        "extra": {"quick": [["rawpool"]], "thorough": [["rawpool"]]}}],
         "assumptions": [SC, "Oracle: occupancy counters and owner ids around every critical section, well-formed programs by construction (unlock only by the holder, LIFO, ordered acquisition for non-reentrant kinds); pool_monitor: lock pointer stable while held, distinct for simultaneously held nodes, refcount bounds, check_free() at quiescence."],
     },
     "C23": {
-        "harnesses": [{"name": "fckernel", "quick": 24000, "thorough": 300000, "fuzz_runs": 40000}],
+        "harnesses": [{"name": "fckernel", "quick": 48000, "thorough": 300000, "fuzz_runs": 40000}],
         "libs": BOOST,
         "assumptions": [SC, "A minimal flat-combining container over the real kernel with a tracking allocator for publication records, a holder-recording lock wrapper and plain-counter statistics; client threads (and children they spawn) are real pthreads whose exit runs the kernel's TLS cleanup under the scheduler."],
     },
     "C24": {
-        "harnesses": [{"name": "pools", "quick": 480000, "thorough": 4800000, "fuzz_runs": 400000}],
+        "harnesses": [{"name": "pools", "quick": 960000, "thorough": 4800000, "fuzz_runs": 400000}],
         "assumptions": [SC, "Oracle: ownership map + per-holder stamps re-checked while held; spurious bad_alloc / heap fall-back allowed while other holders may own everything; exact recycling checks at quiescence."],
     },
     "C26": {
@@ -175,8 +175,8 @@ PROPS = {
     },
     "C06": {
         "harnesses": [
-            {"name": "queue_ms", "quick": 400000, "thorough": 4000000, "fuzz_runs": 600000, "weight": 2},
-            {"name": "fc_containers", "variants": list(range(0, 25)), "quick": 12000, "thorough": 400000, "fuzz_runs": 60000, "weight": 2},
+            {"name": "queue_ms", "quick": 800000, "thorough": 4000000, "fuzz_runs": 600000, "weight": 2},
+            {"name": "fc_containers", "variants": list(range(0, 25)), "quick": 18000, "thorough": 400000, "fuzz_runs": 60000, "weight": 2},
         ],
         "libs": BOOST,
         "assumptions": [SC, "Oracle: Wing-Gong linearizability search against a sequential FIFO model, including the final drain; intrusive nodes: disposer exactly once per node after SMR destruction, link part ASan-poisoned after disposal."],
